@@ -93,9 +93,15 @@ func hexes(fs [][]byte) []string {
 }
 
 // consumer drains Inbound and logs every frame; logs a note when the channel closes.
-func c16Consumer(in *mc.Chan[knxnet.Service], done *mc.Chan[int]) {
+func c16Consumer(in *mc.Chan[knxnet.Service], done *mc.Chan[int]) { c16ConsumerStall(in, done, 0) }
+
+// c16ConsumerStall: the consumer does not touch Inbound for the first `stall` of virtual time.
+func c16ConsumerStall(in *mc.Chan[knxnet.Service], done *mc.Chan[int], stall mc.Duration) {
 	mc.GoEnv("consumer", func() {
 		var kept []knxnet.Service
+		if stall > 0 {
+			mc.Sleep(stall)
+		}
 		for {
 			v, ok := in.Recv2()
 			if !ok {
@@ -321,7 +327,11 @@ func c16History(tcp bool, L int) func() {
 			sock, ep = dialUDP()
 		}
 		done := mc.NewChan[int](1, "c16.done")
-		c16Consumer(sock.Inbound(), done)
+		stall := mc.Duration(0)
+		if mc.Choose(2, mc.Free) == 1 {
+			stall = 2500 * ms // the application is busy elsewhere for a while
+		}
+		c16ConsumerStall(sock.Inbound(), done, stall)
 		for _, it := range seq {
 			var from *net.UDPAddr
 			if it.foreign {
@@ -335,6 +345,7 @@ func c16History(tcp bool, L int) func() {
 		if tcp {
 			ep.InjectErr(io.EOF)
 		} else {
+			mc.Sleep(stall + 1*ms)
 			mc.Sleep(1 * ms)
 			sock.Close()
 		}
